@@ -15,7 +15,7 @@
 (*   fmt_lines  number of lines of format_result (0 when no errors)        *)
 (* Prop selects the property whose clauses decide the verdict.             *)
 (***************************************************************************)
-EXTENDS D42Findings, D42TraceBase
+EXTENDS D42Findings, D42Format, D42TraceBase
 
 CONSTANT Prop
 
@@ -41,6 +41,8 @@ FirstBadError(e, i) ==
   ELSE IF ~e.facts[i].names_path
        THEN "FAIL:message_does_not_name_path:" \o
             (IF AlphabetRootPath(e, i) THEN "validate.alphabet_error_root_path" ELSE "")
+  ELSE IF ~MessageWellFormed(e.errs[i], e.facts[i].msg)
+       THEN "FAIL:message_shape_or_path_wrong:"
   ELSE FirstBadError(e, i + 1)
 
 VerdictC03(e) ==
